@@ -176,20 +176,20 @@ func Cases(r *hx.Rand, tier string) []Case {
 	bases := Bases()
 	for _, p := range Plugins {
 		for bi, base := range bases[p] {
-			must = append(must, Case{p, base, "base"})
+			must = append(must, Case{Plugin: p, Args: base, Class: "base"})
 			// arity
 			if bi == 0 {
-				must = append(must, Case{p, nil, "arity/0"})
-				must = append(must, Case{p, base[:len(base)-1], "arity/-1"})
-				must = append(must, Case{p, append(append([]*Ty{}, base...), tInt), "arity/+1"})
-				pool = append(pool, Case{p, append(append([]*Ty{}, base...), base[len(base)-1]), "arity/+1same"})
+				must = append(must, Case{Plugin: p, Args: nil, Class: "arity/0"})
+				must = append(must, Case{Plugin: p, Args: base[:len(base)-1], Class: "arity/-1"})
+				must = append(must, Case{Plugin: p, Args: append(append([]*Ty{}, base...), tInt), Class: "arity/+1"})
+				pool = append(pool, Case{Plugin: p, Args: append(append([]*Ty{}, base...), base[len(base)-1]), Class: "arity/+1same"})
 			}
 			// substitution at every position
 			for i := range base {
 				for _, j := range Junk() {
 					args := append([]*Ty{}, base...)
 					args[i] = j.t
-					c := Case{p, args, "subst/" + j.name}
+					c := Case{Plugin: p, Args: args, Class: "subst/" + j.name}
 					if bi == 0 && (j.name == "int" || j.name == "nil" || j.name == "variadic-pred" || j.name == "chan" || j.name == "func0" || j.name == "func1-void" || j.name == "func0-1res" || j.name == "variadic2") {
 						must = append(must, c)
 					} else {
@@ -200,7 +200,7 @@ func Cases(r *hx.Rand, tier string) []Case {
 			// both positions replaced by the same junk (identical-arguments plugins)
 			if len(base) == 2 {
 				for _, j := range Junk() {
-					pool = append(pool, Case{p, L(j.t, j.t), "subst2/" + j.name})
+					pool = append(pool, Case{Plugin: p, Args: L(j.t, j.t), Class: "subst2/" + j.name})
 				}
 			}
 		}
@@ -213,7 +213,7 @@ func Cases(r *hx.Rand, tier string) []Case {
 	for _, f := range forms {
 		for _, u := range Unsupported() {
 			for _, s := range s1 {
-				c := Case{f.plugin, f.mk(s.mk(u.t)), "rec1/" + s.name + "/" + u.name}
+				c := Case{Plugin: f.plugin, Args: f.mk(s.mk(u.t)), Class: "rec1/" + s.name + "/" + u.name}
 				if u.name == "error" || u.name == "recvchan" || !mainForm[f.name] {
 					pool = append(pool, c)
 				} else {
@@ -223,14 +223,14 @@ func Cases(r *hx.Rand, tier string) []Case {
 					if s2.name == "self" || s.name == "self" {
 						continue
 					}
-					pool = append(pool, Case{f.plugin, f.mk(s2.mk(s.mk(u.t))), "rec2/" + s2.name + "." + s.name + "/" + u.name})
+					pool = append(pool, Case{Plugin: f.plugin, Args: f.mk(s2.mk(s.mk(u.t))), Class: "rec2/" + s2.name + "." + s.name + "/" + u.name})
 				}
 			}
 		}
 		// supported leaves in the same shapes (the expected-ok side of the same positions)
 		for _, l := range Leaves() {
 			for _, s := range s1 {
-				c := Case{f.plugin, f.mk(s.mk(l.t)), "sup1/" + s.name + "/" + l.name}
+				c := Case{Plugin: f.plugin, Args: f.mk(s.mk(l.t)), Class: "sup1/" + s.name + "/" + l.name}
 				if l.name == "int" && mainForm[f.name] {
 					must = append(must, c)
 				} else {
@@ -240,7 +240,7 @@ func Cases(r *hx.Rand, tier string) []Case {
 					if s2.name == "self" || s.name == "self" {
 						continue
 					}
-					pool = append(pool, Case{f.plugin, f.mk(s2.mk(s.mk(l.t))), "sup2/" + s2.name + "." + s.name + "/" + l.name})
+					pool = append(pool, Case{Plugin: f.plugin, Args: f.mk(s2.mk(s.mk(l.t))), Class: "sup2/" + s2.name + "." + s.name + "/" + l.name})
 				}
 			}
 		}
@@ -252,10 +252,39 @@ func Cases(r *hx.Rand, tier string) []Case {
 				continue
 			}
 			if p == "sort" {
-				must = append(must, Case{p, L(Slice(j.t)), "unordered/" + j.name})
+				must = append(must, Case{Plugin: p, Args: L(Slice(j.t)), Class: "unordered/" + j.name})
 			} else {
-				must = append(must, Case{p, L(j.t, j.t), "unordered/" + j.name})
-				pool = append(pool, Case{p, L(Slice(j.t), j.t), "unordered-slice/" + j.name})
+				must = append(must, Case{Plugin: p, Args: L(j.t, j.t), Class: "unordered/" + j.name})
+				pool = append(pool, Case{Plugin: p, Args: L(Slice(j.t), j.t), Class: "unordered-slice/" + j.name})
+			}
+		}
+	}
+	// min/max in the slice form with an untyped constant as the default value
+	for _, p := range []string{"min", "max"} {
+		for _, j := range Junk() {
+			if j.t.K == "tup" || j.t.untyped() {
+				continue
+			}
+			c := Case{Plugin: p, Args: L(Slice(j.t), B("u-int")), Class: "unordered-slice-untyped/" + j.name}
+			switch j.name {
+			case "int", "float64", "string", "iface", "complex128", "bool", "named-struct", "ptr-named-struct", "chan", "func0":
+				must = append(must, c)
+			default:
+				pool = append(pool, c)
+			}
+		}
+	}
+	// depth 2 of the main forms over the supported leaf int (the expected-ok side): always
+	for _, f := range forms {
+		if !mainForm[f.name] {
+			continue
+		}
+		for _, s := range s1 {
+			for _, s2 := range s1 {
+				if s2.name == "self" || s.name == "self" {
+					continue
+				}
+				must = append(must, Case{Plugin: f.plugin, Args: f.mk(s2.mk(s.mk(tInt))), Class: "sup2/" + s2.name + "." + s.name + "/int"})
 			}
 		}
 	}
@@ -268,6 +297,38 @@ func Cases(r *hx.Rand, tier string) []Case {
 		n = len(pool)
 	}
 	return append(must, pool[:n]...)
+}
+
+// Twins: packages with the same call twice, on two distinct named types with the same underlying
+// types (bases of every plugin, and the recursive forms over five shapes of int).
+func Twins(r *hx.Rand, tier string) []Case {
+	var out []Case
+	add := func(c Case) {
+		a, b := c.Twin(8000), c.Twin(8100)
+		if a == nil {
+			return
+		}
+		out = append(out, Case{Plugin: c.Plugin, Args: a, Class: "twin/" + c.Class, Second: b})
+	}
+	bases := Bases()
+	for _, p := range Plugins {
+		for _, base := range bases[p] {
+			add(Case{Plugin: p, Args: base, Class: "base"})
+		}
+	}
+	for _, f := range RecForms() {
+		for _, s := range Shapes1() {
+			switch s.name {
+			case "self", "ptr", "slice", "mapval", "struct1":
+			default:
+				if tier != "thorough" {
+					continue
+				}
+			}
+			add(Case{Plugin: f.plugin, Args: f.mk(s.mk(tInt)), Class: "rec/" + s.name})
+		}
+	}
+	return out
 }
 
 func (c Case) String() string {
